@@ -319,6 +319,12 @@ def explore(ctx):
                          fill=ctx.seed + i)
                 casesA.append({'sweep': 'A', 'layout': l})
                 i += 1
+    for dt in ('float32', 'float64'):
+        for l in ({'backend': 'array', 'parts': [5]}, {'backend': 'flat', 'parts': [2, 3]}):
+            l = dict(l, dtype=dt, n_channels=3, offset=0, sample_rate=1000.0, fill=ctx.seed + i,
+                     nonfinite=True)
+            casesA.append({'sweep': 'A', 'layout': l})
+            i += 1
     ctx.run_cases(run_case, casesA, chunk=1, sweep='A-window-arithmetic')
     # B
     casesB = []
